@@ -293,3 +293,10 @@ def run(ctx):
                    why='a stale cache hit changes the count')
     except ImportError:
         pass
+    # the figure counts LEGAL move sequences: every node's children are the generator's moves, so the count is the true one only if
+    # generation is exact on the positions reached (all clauses of C01, incl. the rights / en-passant invariants its castle and e.p.
+    # generation rely on)
+    from . import c01
+    import_rules(ctx, 'C10.R5-counts-legal-moves', c01.ALL_RULES,
+                 'a generator that offers an illegal move (or omits a legal one) in some reachable position changes the number of '
+                 'sequences through that position', floor=6)
